@@ -2,6 +2,7 @@
 //! scans) and model-free self-consistency (raw index dump vs. indices recomputed from the
 //! store's own forward references). Every violation is tagged with the property that owns it.
 
+use crate::ops::Val;
 use crate::exec::catch;
 use crate::model::*;
 use stam::*;
@@ -459,6 +460,10 @@ impl<'a> Checker<'a> {
         let max_slots = m.ann_slots.max(m.res_slots).max(m.set_slots) + 1;
         for letter in ['A', 'R', 'S', 'D', 'K', 'T', 'X', 'É'] {
             for n in 0..=max_slots.min(6) {
+                pool.insert(format!("!{}{}", letter, n));
+            }
+            // numbers around the widths of the handle types (u16 for sets and keys, u32 for the others) and of usize
+            for n in ["65535", "65536", "70000", "4294967295", "4294967296", "18446744073709551615", "18446744073709551616"] {
                 pool.insert(format!("!{}{}", letter, n));
             }
         }
@@ -1543,6 +1548,36 @@ impl<'a> Checker<'a> {
                             self.push("C06", class, &key, format!("{}: {}", ctx, d));
                         }
                     }
+                    // the iterator form: each of the annotation's selections as a reference of its own, the
+                    // results merged - every related selection once (equality variants: see above, not evaluated)
+                    if member.len() >= 2 && !matches!(op, TextSelectionOperator::Equals { .. }) {
+                        let key = format!("related_text.iterator.{}", op_key(op));
+                        let expected = catch(|| {
+                            let mut v: BTreeSet<(usize, usize)> = BTreeSet::new();
+                            for (rb, re) in member.iter() {
+                                let reference = res.textselection(&Offset::simple(*rb, *re)).expect("member selection");
+                                for (_, kb, ke) in known.iter() {
+                                    if (kb, ke) == (rb, re) {
+                                        continue;
+                                    }
+                                    let cand = res.textselection(&Offset::simple(*kb, *ke)).expect("known selection");
+                                    if reference.test(op, &cand) {
+                                        v.insert((*kb, *ke));
+                                    }
+                                }
+                            }
+                            v.into_iter().collect::<Vec<_>>()
+                        });
+                        let Ok(expected) = expected else { continue };
+                        let got = self.guarded("C06", &key, &ctx, || item.textselections().related_text(*op).map(|t| (t.begin(), t.end())).collect::<Vec<_>>());
+                        if let Some(got) = got {
+                            let mut g = got.clone();
+                            g.sort();
+                            if let Some((class, d)) = diff_class(&expected, &g) {
+                                self.push("C06", class, &key, format!("{}: {}", ctx, d));
+                            }
+                        }
+                    }
                 }
             }
         }
@@ -1749,12 +1784,117 @@ fn data_operators() -> Vec<DataOperator<'static>> {
         DataOperator::Or(vec![DataOperator::EqualsInt(5), DataOperator::Equals(Cow::Borrowed("x"))]),
         DataOperator::Or(vec![DataOperator::Equals(Cow::Borrowed("5")), DataOperator::True]),
         DataOperator::And(vec![DataOperator::GreaterThan(0), DataOperator::LessThan(10)]),
+        // cross-type comparison with a string operand, for scalars and for list elements alike
+        DataOperator::HasElement(Cow::Borrowed("5")),
+        DataOperator::HasElement(Cow::Borrowed("x")),
+        DataOperator::HasElement(Cow::Borrowed("0.5")),
+        DataOperator::HasElement(Cow::Borrowed("2022-01-01T13:00:00+01:00")),
+        DataOperator::HasElement(Cow::Borrowed("")),
+        DataOperator::HasElementInt(42),
+        DataOperator::HasElementFloat(5.0),
+        DataOperator::Not(Box::new(DataOperator::HasElement(Cow::Borrowed("5")))),
+        DataOperator::Or(vec![DataOperator::HasElement(Cow::Borrowed("true")), DataOperator::HasElementInt(0)]),
+        DataOperator::Equals(Cow::Borrowed("TRUE")),
+        DataOperator::Equals(Cow::Borrowed("on")),
+        DataOperator::Equals(Cow::Borrowed("false")),
+        DataOperator::Equals(Cow::Borrowed("+5")),
+        DataOperator::Equals(Cow::Borrowed("05")),
+        DataOperator::Equals(Cow::Borrowed("5e0")),
+        DataOperator::Equals(Cow::Borrowed("-1")),
+        DataOperator::Equals(Cow::Borrowed("2022-01-01T13:00:00+01:00")),
+        DataOperator::Equals(Cow::Borrowed("null")),
+        DataOperator::GreaterThanOrEqualFloat(0.5),
+        DataOperator::LessThanFloat(0.5),
+        DataOperator::BeforeDatetime(dt("2022-01-01T12:00:00+00:00")),
+        DataOperator::AtOrAfterDatetime(dt("2022-01-01T13:00:00+01:00")),
+        DataOperator::And(vec![DataOperator::Not(Box::new(DataOperator::Null)), DataOperator::Not(Box::new(DataOperator::Equals(Cow::Borrowed("x"))))]),
     ]
+}
+
+/// The comparison semantics of data values as a reference predicate over the model's own value type,
+/// written independently of `DataValue::test`: an operator applies to one value type (everything else
+/// fails), except the string operand of `Equals`, which every scalar type interprets in its own way
+/// (integers and floats parse it, booleans read it as a truth word, datetimes as RFC 3339; instants
+/// compare, not their spelling). The element operators apply the corresponding `Equals*` to each
+/// element of a list. Negation, conjunction and disjunction are Boolean.
+pub fn ref_test(v: &Val, op: &DataOperator) -> bool {
+    fn instant(s: &str) -> Option<DateTime<FixedOffset>> {
+        DateTime::parse_from_rfc3339(s).ok()
+    }
+    fn truth_word(s: &str) -> bool {
+        matches!(s.to_lowercase().as_str(), "yes" | "1" | "enable" | "enabled" | "on" | "true")
+    }
+    fn int_of(v: &Val) -> Option<i64> {
+        if let Val::Int(n) = v {
+            Some(*n)
+        } else {
+            None
+        }
+    }
+    fn float_of(v: &Val) -> Option<f64> {
+        if let Val::Float(f) = v {
+            Some(*f)
+        } else {
+            None
+        }
+    }
+    fn dt_of(v: &Val) -> Option<DateTime<FixedOffset>> {
+        if let Val::Datetime(s) = v {
+            instant(s)
+        } else {
+            None
+        }
+    }
+    fn elements(v: &Val) -> &[Val] {
+        if let Val::List(l) = v {
+            l.as_slice()
+        } else {
+            &[]
+        }
+    }
+    match op {
+        DataOperator::Any => true,
+        DataOperator::Null => matches!(v, Val::Null),
+        DataOperator::True => matches!(v, Val::Bool(true)),
+        DataOperator::False => matches!(v, Val::Bool(false)),
+        DataOperator::Equals(s) => match v {
+            Val::Str(x) => x.as_str() == s.as_ref(),
+            Val::Int(n) => s.parse::<isize>().map(|m| m as i64 == *n).unwrap_or(false),
+            Val::Float(f) => s.parse::<f64>().map(|m| m == *f).unwrap_or(false),
+            Val::Bool(b) => truth_word(s) == *b,
+            Val::Datetime(x) => match (instant(x), instant(s)) {
+                (Some(a), Some(b)) => a == b,
+                _ => false,
+            },
+            Val::Null | Val::List(_) => false,
+        },
+        DataOperator::EqualsInt(m) => int_of(v).map(|n| n == *m as i64).unwrap_or(false),
+        DataOperator::GreaterThan(m) => int_of(v).map(|n| n > *m as i64).unwrap_or(false),
+        DataOperator::GreaterThanOrEqual(m) => int_of(v).map(|n| n >= *m as i64).unwrap_or(false),
+        DataOperator::LessThan(m) => int_of(v).map(|n| n < *m as i64).unwrap_or(false),
+        DataOperator::LessThanOrEqual(m) => int_of(v).map(|n| n <= *m as i64).unwrap_or(false),
+        DataOperator::EqualsFloat(m) => float_of(v).map(|f| f == *m).unwrap_or(false),
+        DataOperator::GreaterThanFloat(m) => float_of(v).map(|f| f > *m).unwrap_or(false),
+        DataOperator::GreaterThanOrEqualFloat(m) => float_of(v).map(|f| f >= *m).unwrap_or(false),
+        DataOperator::LessThanFloat(m) => float_of(v).map(|f| f < *m).unwrap_or(false),
+        DataOperator::LessThanOrEqualFloat(m) => float_of(v).map(|f| f <= *m).unwrap_or(false),
+        DataOperator::ExactDatetime(m) => dt_of(v).map(|d| d == *m).unwrap_or(false),
+        DataOperator::AfterDatetime(m) => dt_of(v).map(|d| d > *m).unwrap_or(false),
+        DataOperator::BeforeDatetime(m) => dt_of(v).map(|d| d < *m).unwrap_or(false),
+        DataOperator::AtOrAfterDatetime(m) => dt_of(v).map(|d| d >= *m).unwrap_or(false),
+        DataOperator::AtOrBeforeDatetime(m) => dt_of(v).map(|d| d <= *m).unwrap_or(false),
+        DataOperator::HasElement(s) => elements(v).iter().any(|e| ref_test(e, &DataOperator::Equals(s.clone()))),
+        DataOperator::HasElementInt(m) => elements(v).iter().any(|e| int_of(e) == Some(*m as i64)),
+        DataOperator::HasElementFloat(m) => elements(v).iter().any(|e| float_of(e).map(|f| f == *m).unwrap_or(false)),
+        DataOperator::Not(o) => !ref_test(v, o),
+        DataOperator::And(os) => os.iter().all(|o| ref_test(v, o)),
+        DataOperator::Or(os) => os.iter().any(|o| ref_test(v, o)),
+    }
 }
 
 impl<'a> Checker<'a> {
     /// find_data / test_data / data_by_value on store, dataset and key return exactly what a full
-    /// scan of the model's live data selects with the library's own DataValue::test
+    /// scan of the model's live data selects with the reference comparison semantics (ref_test)
     pub fn check_data_search(&mut self, sample_seed: u64) {
         let store = self.store;
         let m = self.model;
@@ -1788,9 +1928,22 @@ impl<'a> Checker<'a> {
                     let expected: Vec<usize> = set
                         .data
                         .iter()
-                        .filter(|d| d.live && key.map(|(ki, _)| d.key == ki).unwrap_or(true) && d.value.to_datavalue().test(op))
+                        .filter(|d| d.live && key.map(|(ki, _)| d.key == ki).unwrap_or(true) && ref_test(&d.value, op))
                         .map(|d| d.handle)
                         .collect();
+                    // the predicate itself, value by value, against the reference semantics
+                    if key.is_none() {
+                        for d in set.data.iter().filter(|d| d.live) {
+                            let want = ref_test(&d.value, op);
+                            let dv = d.value.to_datavalue();
+                            let op2 = op.clone();
+                            if let Some(got) = self.guarded("C10", "datavalue.test", &ctx, move || dv.test(&op2)) {
+                                if got != want {
+                                    self.push("C10", "mismatch", "datavalue.test", format!("value {:?} op {:?}: the comparison semantics give {} but DataValue::test gives {}", d.value, op, want, got));
+                                }
+                            }
+                        }
+                    }
                     let sethandle = sh(set.handle);
                     let got_store = match key {
                         Some((_, k)) => {
